@@ -21,19 +21,19 @@ type Palette struct {
 }
 
 var (
-	sObjA   = Obj(P("a", Int("1")))
+	sObjA    = Obj(P("a", Int("1")))
 	sObjRich = Obj(P("id", Int("1").Min("0").N("the id")), P("name", Str("Tom").Optional()))
-	sArr    = Arr(Int("1"), Str("s"))
-	sNested = Obj(P("k", Obj(P("m", Arr(Bool("true"), Null())))), P("f", Float("1.5")))
-	sRefT1  = Obj(P("r", Ref("@T1")))
-	sEnumE1 = Obj(P("e", Str("a").Enum("@E1")))
-	sHdr    = Obj(P("X-A", Str("1")))
-	sHdr2   = Obj(P("X-B", Str("2")))
+	sArr     = Arr(Int("1"), Str("s"))
+	sNested  = Obj(P("k", Obj(P("m", Arr(Bool("true"), Null())))), P("f", Float("1.5")))
+	sRefT1   = Obj(P("r", Ref("@T1")))
+	sEnumE1  = Obj(P("e", Str("a").Enum("@E1")))
+	sHdr     = Obj(P("X-A", Str("1")))
+	sHdr2    = Obj(P("X-B", Str("2")))
 )
 
 func DefaultPalette() *Palette {
 	return &Palette{
-		Infos: []*Info{{Title: "My API"}, {Title: "T", Version: "1.0", Desc: "Hello\n  world"}, {Desc: "only text"}},
+		Infos:   []*Info{{Title: "My API"}, {Title: "T", Version: "1.0", Desc: "Hello\n  world"}, {Desc: "only text"}},
 		Servers: []*Server{{Name: "@prod", Ann: "Production", BaseURL: "https://x.y/"}, {Name: "@test", BaseURL: "http://t"}},
 		Tags:    []*Tag{{Name: "@cats", Ann: "Cats", Desc: "About cats"}, {Name: "@dogs"}},
 		Types: []*Type{
@@ -310,7 +310,10 @@ func (g *genState) httpVariants(method, path string) {
 		func(h *HTTP) (int, []string) { h.Tags = []string{"@cats"}; return 1, nil },
 		func(h *HTTP) (int, []string) { h.Tags = []string{"@dogs", "@cats"}; return 1, nil }})
 	// operation id
-	slots = append(slots, []alt{nil, func(h *HTTP) (int, []string) { h.OpID = "op" + method + pathID(path); return 1, []string{"op:" + method + pathID(path)} }})
+	slots = append(slots, []alt{nil, func(h *HTTP) (int, []string) {
+		h.OpID = "op" + method + pathID(path)
+		return 1, []string{"op:" + method + pathID(path)}
+	}})
 	// Path schema (defines every parameter of the path that is not yet defined elsewhere)
 	if pp := pathParams(path); len(pp) > 0 {
 		slots = append(slots, []alt{nil, func(h *HTTP) (int, []string) {
